@@ -16,7 +16,7 @@ use std::io::Read;
 use std::time::Instant;
 
 const P: &str = "C07";
-pub const N_FILES: usize = 4;
+pub const N_FILES: usize = 5;
 
 /// The small files whose pages are damaged: points, blobs and XML spread over 2-5 pages.
 pub fn file(k: usize) -> Vec<u8> {
@@ -34,6 +34,14 @@ pub fn file(k: usize) -> Vec<u8> {
             h.snapshot()
         }
         2 => encode(&crate::scenes::scene(6), &mut Canonical, Knobs::NONE).bytes,
+        4 => {
+            // header + one blob fill page 0 exactly: the XML section starts at physical offset 1024
+            let p = Program { guid: "g".into(), ops: vec![Op::Blob(pattern(5, 956))], ..Default::default() };
+            let dev = Dev::empty();
+            let h = dev.handle();
+            let _ = run_program(dev, &p, &ExecOpts::default());
+            h.snapshot()
+        }
         _ => encode(&crate::scenes::scene(2), &mut Canonical, Knobs::NONE).bytes,
     }
 }
@@ -44,17 +52,19 @@ pub struct Pristine {
     pub results: Vec<Outcome>,
     pub blobs: Vec<e57::Blob>,
     pub raw_xml: Vec<u8>,
+    pub header: String,
 }
 
 pub fn pristine(k: usize) -> Result<Pristine, String> {
     let bytes = file(k);
     let r = E57Reader::new(Dev::new(bytes.clone())).map_err(|e| err_string(&e))?;
     let blobs = blob_list(&r);
+    let header = format!("{:?}", r.header());
     let ops = alphabet(r.pointclouds().len(), blobs.len());
     let (results, _) = fresh_results(&bytes, &ops)?;
     E57Reader::validate_crc(Dev::new(bytes.clone())).map_err(|e| format!("validate_crc fails on the pristine file: {}", err_string(&e)))?;
     let raw_xml = E57Reader::raw_xml(Dev::new(bytes.clone())).map_err(|e| err_string(&e))?;
-    Ok(Pristine { bytes, ops, results, blobs, raw_xml })
+    Ok(Pristine { bytes, ops, results, blobs, raw_xml, header })
 }
 
 /// run `seq` (indices into p.ops) on one reader over `damaged`; every outcome must be Err or pristine
@@ -63,6 +73,11 @@ fn judge_seq(p: &Pristine, damaged: &[u8], seq: &[usize]) -> Option<(String, Str
         Ok(r) => r,
         Err(_) => return None,
     };
+    // the file header is data read from page 0
+    let hdr = format!("{:?}", r.header());
+    if hdr != p.header {
+        return Some((format!("{P}/data-from-damaged-file/header"), format!("E57Reader::new succeeded and header() returns {hdr}, on the unaltered file it returns {}", p.header)));
+    }
     for (i, oi) in seq.iter().enumerate() {
         let out = exec(&mut r, &p.ops[*oi], &p.blobs);
         if out.is_ok() && out != p.results[*oi] {
